@@ -34,6 +34,7 @@ type FuncInfo struct {
 type World struct {
 	Fset        *token.FileSet
 	Pkgs        map[string]*packages.Package
+	declKeys    map[string]map[string]bool
 	Funcs       map[string]*FuncInfo // by key
 	ByObj       map[*types.Func]*FuncInfo
 	ByLit       map[*ast.FuncLit]*FuncInfo
@@ -263,6 +264,14 @@ func (w *World) bind() error {
 		}
 		if !s.Assumed {
 			errs = append(errs, fmt.Sprintf("%s:%d: contract-unbound: no function %s", s.File, s.Line, key))
+			continue
+		}
+		// an assumed contract on a loaded package (interface methods, mostly) must name something that exists:
+		// a misspelt key would silently be no contract at all
+		if pkg := w.Pkgs[s.PkgPath]; pkg != nil && pkg.Types != nil && s.Flags["pureglob"] == "" {
+			if !w.declaredKeys(pkg)[key] {
+				errs = append(errs, fmt.Sprintf("%s:%d: contract-unbound: package %s declares no %s", s.File, s.Line, s.PkgPath, s.Name))
+			}
 		}
 	}
 	for _, key := range sortedKeys(w.Specs) {
@@ -275,6 +284,39 @@ func (w *World) bind() error {
 		return fmt.Errorf("%s", strings.Join(errs, "\n"))
 	}
 	return nil
+}
+
+// declaredKeys: the contract keys of every function and method (of named types, interfaces included) a package declares.
+func (w *World) declaredKeys(pkg *packages.Package) map[string]bool {
+	if w.declKeys == nil {
+		w.declKeys = map[string]map[string]bool{}
+	}
+	if m, ok := w.declKeys[pkg.PkgPath]; ok {
+		return m
+	}
+	m := map[string]bool{}
+	sc := pkg.Types.Scope()
+	for _, n := range sc.Names() {
+		switch o := sc.Lookup(n).(type) {
+		case *types.Func:
+			m[funcKeyOf(o)] = true
+		case *types.TypeName:
+			nt, ok := o.Type().(*types.Named)
+			if !ok {
+				continue
+			}
+			for i := 0; i < nt.NumMethods(); i++ {
+				m[funcKeyOf(nt.Method(i))] = true
+			}
+			if it, ok := nt.Underlying().(*types.Interface); ok {
+				for i := 0; i < it.NumExplicitMethods(); i++ {
+					m[pkg.PkgPath+"|"+o.Name()+"."+it.ExplicitMethod(i).Name()] = true
+				}
+			}
+		}
+	}
+	w.declKeys[pkg.PkgPath] = m
+	return m
 }
 
 // funcKeyOf returns the contract key for a *types.Func (methods: by receiver's named type).
